@@ -66,7 +66,8 @@ pub struct Request {
     pub data: RequestPayload,
 }
 
-const REQUEST_HEADER_LEN: usize = 6;
+/// CLA, INS, P1, P2 and the three bytes of the extended length encoding
+const REQUEST_HEADER_LEN: usize = 7;
 
 impl TryFrom<&[u8]> for Request {
     type Error = ResponseStatusWords;
@@ -83,13 +84,17 @@ impl TryFrom<&[u8]> for Request {
         }
         let ins = Command::from(value[1]);
         let p1 = value[2];
-        let data_start = REQUEST_HEADER_LEN + 1;
+        let data_start = REQUEST_HEADER_LEN;
         // SAFETY: This unwrap is safe since 3..7 gives 4 bytes which is a safe conversion to an
         // array of len 4. Technically the first of these bytes is `p2` the second parameter,
         // but in the base U2F spec this will always be 0. So this length is safe.
         let data_len = u32::from_be_bytes(value[3..data_start].try_into().unwrap()) as usize;
-        let data_end = data_start + data_len;
-        let payload = &value[data_start..data_end];
+        let data_end = data_start
+            .checked_add(data_len)
+            .ok_or(ResponseStatusWords::WrongLength)?;
+        let payload = value
+            .get(data_start..data_end)
+            .ok_or(ResponseStatusWords::WrongLength)?;
 
         let data = match ins {
             Command::Register => RequestPayload::Register(
@@ -98,10 +103,15 @@ impl TryFrom<&[u8]> for Request {
                     // Wrong length because it must be two SHA256's which are 32 bytes each
                     .map_err(|_| ResponseStatusWords::WrongLength)?,
             ),
-            Command::Authenticate => RequestPayload::Authenticate(
-                AuthenticationRequest::try_from(payload, p1)
-                    .map_err(|_| ResponseStatusWords::WrongLength)?,
-            ),
+            Command::Authenticate => {
+                if !matches!(p1, 0x03 | 0x07 | 0x08) {
+                    return Err(ResponseStatusWords::WrongData);
+                }
+                RequestPayload::Authenticate(
+                    AuthenticationRequest::try_from(payload, p1)
+                        .map_err(|_| ResponseStatusWords::WrongLength)?,
+                )
+            }
             Command::Version => RequestPayload::Version,
             Command::Unsuported(_) => return Err(ResponseStatusWords::InsNotSupported),
         };
